@@ -33,6 +33,7 @@ from pymbolic.mapper.stringifier import (
     PREC_UNARY,
     SimplifyingSortingStringifyMapper,
 )
+from pymbolic.primitives import Power
 
 
 class CCodeMapper(SimplifyingSortingStringifyMapper):
@@ -96,6 +97,11 @@ class CCodeMapper(SimplifyingSortingStringifyMapper):
         return self.copy(self.cse_name_list + cses_and_values)
 
     # {{{ mappings
+
+    # x**2 is printed as x * x: as an operand of / and % it needs the
+    # parentheses of a product (a / x**2 is not a / x * x).
+    multiplicative_primitives = (
+            *SimplifyingSortingStringifyMapper.multiplicative_primitives, Power)
 
     def map_product(self, expr, enclosing_prec):
         from pymbolic.mapper.stringifier import PREC_PRODUCT
